@@ -209,3 +209,15 @@ def the_frame_is_secured_with_the_addresses_it_leaves_with(h, dst, src, enc):
     want = h.xknx.current_address.raw if src == 0 else src
     assert ghost("secured") == [(want, dst.raw)]
     assert ghost("wire") == [(want, dst.raw)]
+
+
+# ------------------------------------------------------------------ "accepted by another that knows the sender" over a history
+# sender_and_receiver_feed_the_same_inputs accepts a frame whose number is above the receiver's last valid
+# number for the sender. That this stored number only ever moves to the number of a frame that verified - so
+# that forged or damaged frames cannot lock the genuine sender out - is the receive-step lemma of C17; an
+# obligation here too.
+
+from contracts import c17_sequence as _c17  # noqa: E402
+from pyvc.api import rely_on  # noqa: E402
+
+rely_on("C15", _c17.received_secure_frame_step)
